@@ -104,8 +104,11 @@ def _dims(n, n_duct, which):
     ftf = []
     x = inner
     for i in range(n_duct):
-        ftf.append([x, x + 2 * t])
-        x += 2 * t + 2 * b
+        # walls and bypass gaps of different thickness from duct to duct in the second set of dimensions
+        ti = t * (1 + 0.35 * i) if which else t
+        bi = b * (1 - 0.2 * i) if which else b
+        ftf.append([x, x + 2 * ti])
+        x += 2 * ti + 2 * bi
     return P, D, Dw, ftf
 
 
@@ -224,6 +227,28 @@ def topology_conditions(n, n_duct, which=0):
                 if np.min(np.linalg.norm(pts - rot[i], axis=1)) > 1e-9 * scale:
                     six_ok = False
     cond('centroids.sixfold_symmetric', six_ok)
+    # duct-wall and bypass cells sit in the middle of their annulus: edge cells on the mid-apothem, corner cells on
+    # the diagonal at the mid flat-to-flat (x 2/sqrt3), and outboard of their inward neighbour
+    ann = []
+    for i in range(n_duct):
+        ann.append((ftf[i][0], ftf[i][1]))
+        if i < n_duct - 1:
+            ann.append((ftf[i][1], ftf[i + 1][0]))
+    mid_ok, det = True, ''
+    normals = [np.array([math.cos(a), math.sin(a)]) for a in (k * math.pi / 3 for k in range(6))]
+    for r, (f_in, f_out) in enumerate(ann):
+        lo = nc + r * nd
+        want = (f_in + f_out) / 4
+        for i in range(lo, lo + nd):
+            is_corner = int(typ[i]) % 2 == 0 if False else None
+            rad = float(np.linalg.norm(xy[i]))
+            apo = max(float(np.dot(xy[i], nv)) for nv in normals)
+            # a corner cell is on a diagonal (apothem = radius * sqrt3/2), an edge cell is not
+            on_diag = abs(apo - rad * math.sqrt(3) / 2) <= 1e-9 * max(rad, 1e-30)
+            got = rad * math.sqrt(3) / 2 if on_diag else apo
+            if abs(got - want) > 1e-9 * want:
+                mid_ok, det = False, f'ring {r} cell {i - lo}: apothem {got!r}, mid-annulus {want!r}'
+    cond('centroids.duct_bypass_mid_annulus', mid_ok, det)
     topo = dict(type=typ.copy(), adj=adj.copy(), pin_adj=pa.copy(), rev=rev.copy(), n_sc=sc.n_sc)
     return res, topo
 
